@@ -123,6 +123,22 @@ def run(chk):
             add("s.containsI(n)", b, "OK " + vb(n.lower() in s.lower()), note)
             add("s.startsWithI(n)", b, "OK " + vb(s.lower().startswith(n.lower())), note)
             add("s.endsWithI(n)", b, "OK " + vb(s.lower().endswith(n.lower())), note)
+    # single left-to-right scan: a deletion or replacement that joins the text on both sides into a NEW occurrence must not
+    # be taken again (every string over {a, b} up to length 5 (thorough: 7), every pattern of length 2 and 3 that can overlap
+    # itself or be re-created, every short replacement)
+    import itertools
+    ab = ["".join(t) for k in range(0, 6 if quick else 8) for t in itertools.product("ab", repeat=k)]
+    for s in ab + ["x<<>>y", "....//", "aéébé"]:
+        for n in (["ab", "ba", "aa", "aab", "aba", "abb"] if s[:1] in ("", "a", "b") else ["<>", "../", "éb", "é"]):
+            b = [("s", vs(s)), ("n", vs(n))]
+            note = [("s", s), ("n", n)]
+            add("s.remove(n)", b, S(s.replace(n, "")), note)
+            add("s.split(n)", b, L(py_split(s, n)), note)
+            add("s.rsplit(n)", b, L(py_rsplit(s, n)), note)
+            add("s.trimStartMatches(n)", b, S(py_trim_start_matches(s, n)), note)
+            add("s.trimEndMatches(n)", b, S(py_trim_end_matches(s, n)), note)
+            for t in ["", "a", "b", n[::-1]]:
+                add("s.replace(n, t)", b + [("t", vs(t))], S(s.replace(n, t)), note + [("t", t)])
     for s in strs:
         for n in (rng.sample(needles, 6) + [s[:2], s[-2:], s]) if s else needles[:4]:
             b = [("s", vs(s)), ("n", vs(n))]
@@ -227,6 +243,32 @@ def run(chk):
                 r = None
             if r is not None:
                 add("pow(x, e)", [("x", vf(d)), ("e", vf(e))], ("FLOAT", r))
+    # a double raised to a whole exponent (int or uint), through and beyond the 32-bit range where the implementation changes
+    # algorithm: bases whose powers are exact (+-1, +-2, +-0.5, +-0, +-inf), so the expected double is exact whatever the method
+    def exact_pow(d, e):
+        if e == 0 or d == 1.0:
+            return 1.0
+        neg = math.copysign(1.0, d) < 0 and e % 2 != 0
+        a = abs(d)
+        if a == 1.0:
+            m = 1.0
+        elif a == 0.0:
+            m = 0.0 if e > 0 else float("inf")
+        elif a == float("inf"):
+            m = float("inf") if e > 0 else 0.0
+        else:
+            k = int(math.log2(a)) * e
+            m = float("inf") if k > 1023 else (0.0 if k < -1074 else math.ldexp(1.0, k))
+        return -m if neg else m
+    wexp = [0, 1, 2, 3, 31, 62, 63, 64, 1023, 1024, 1074, 1075, 2 ** 31 - 2, 2 ** 31 - 1, 2 ** 31, 2 ** 31 + 1, 2 ** 32, 2 ** 32 + 1,
+            2 ** 34, 2 ** 34 + 1, 2 ** 40 + 1, 2 ** 53 - 1]
+    for d in [1.0, -1.0, 2.0, -2.0, 0.5, -0.5, 0.0, -0.0, float("inf"), float("-inf"), 4.0, -0.25]:
+        for e in wexp:
+            add("pow(x, e)", [("x", vf(d)), ("e", vi(e))], ("FLOAT", exact_pow(d, e)))
+            add("pow(x, e)", [("x", vf(d)), ("e", vu(e))], ("FLOAT", exact_pow(d, e)))
+            if e:
+                add("pow(x, e)", [("x", vf(d)), ("e", vi(-e))], ("FLOAT", exact_pow(d, -e)))
+        add("pow(x, e)", [("x", vf(d)), ("e", vi(-2 ** 31 - 1))], ("FLOAT", exact_pow(d, -2 ** 31 - 1)))
     n_math = len(cases)
     # ---- arity and type grid -------------------------------------------------------------------------------
     pool = [vi(1), vu(1), vf(1.5), vs("a"), vb(True), VNULL, vlist([vi(1)]), vmap([("a", vi(1))]), vy(b"a")]
